@@ -867,6 +867,11 @@ func (e *SpecEnv) trCall(x *ECall) Val {
 		// appendOf(c, a, b): c is the value returned by append(a, b...) (a fact recorded by the engine)
 		c.declOnce("appendOf", "(declare-fun appendOf (Slice Slice Slice) Bool)")
 		return Val{T: fmt.Sprintf("(appendOf %s %s %s)", e.tr(x.Args[0]).T, e.tr(x.Args[1]).T, e.tr(x.Args[2]).T), Ty: tBool}
+	case "sameBase":
+		// two slices start at the same element of the same (non-nil) backing array and
+		// have the same capacity: one is the other re-sliced in place (append within capacity)
+		a, b := e.tr(x.Args[0]), e.tr(x.Args[1])
+		return Val{T: fmt.Sprintf("(and (= %s %s) (not (= %s 0)) (= %s %s) (= %s %s))", c.acc("sobj", a.T), c.acc("sobj", b.T), c.acc("sobj", a.T), c.acc("soff", a.T), c.acc("soff", b.T), c.acc("scap", a.T), c.acc("scap", b.T)), Ty: tBool}
 	case "sameObj":
 		// both slices/pointers refer to the same allocated object (backing array)
 		a, b := e.tr(x.Args[0]), e.tr(x.Args[1])
